@@ -10,9 +10,9 @@ MCOwner(d)  == AllOwner[d]
 MCMethod(d) == AllMethod[d]
 MCMethods(svc)  == IF svc = "a" THEN {"jwk"} ELSE {}
 \* presentation_max_validity of the generated service definitions (seconds); TickLen = 1000:
-\*   a: refresh after 1800 s, expiry after 3999 s  (due in the slots >= +2000, expired in the slots >= +4000)
-\*   b: refresh after 1350 s, expiry after 2999 s  (due in the slots >= +2000, expired in the slots >= +3000)
-MCValidity(svc) == IF svc = "a" THEN 4000 ELSE 3000
+\*   a: 2000 -> refresh after  900 s, expiry after 1999 s  (due in the slots >= +1000, expired in the slots >= +2000, Slack 1)
+\*   b: 4000 -> refresh after 1800 s, expiry after 3999 s  (due in the slots >= +2000, expired in the slots >= +4000, Slack 2)
+MCValidity(svc) == IF svc = "a" THEN 2000 ELSE 4000
 
 \* the formula of the code keeps the refresh strictly before the expiry for every validity >= 2 s; the JSON schema of a
 \* service definition allows presentation_max_validity = 1, for which both offsets are 0 (a presentation born expired)
